@@ -28,7 +28,7 @@ structure AS where
   live : List Id := []
   count : Nat := 0
   fails : List Nat := []
-deriving Repr
+deriving Repr, DecidableEq
 
 /-- will the next request fail? -/
 def AS.nextFails (s : AS) : Bool := s.fails.contains (s.count + 1)
